@@ -28,8 +28,16 @@
 //! `disk-*` name the race the run contains (shared temporary name, put/remove, stale get).
 //!
 //! DynamicContainer: `dstress …` lines = free-running rounds on 2-4 real threads (no hooks, no
-//! model; the driver answers the constant `oracle-only`): reads return NotFound or exactly the
-//! written bytes, nothing fails, counts settle, a re-opened container agrees; sigs `dyn-conc-*`.
+//! model; the driver answers the constant `oracle-only`). The round number picks the shape of
+//! the round (DYN_MODES: read-of-indexed-key || write-of-other-key, write || write,
+//! write || remove, read || remove, mixed; empty or pre-filled container; with / without the
+//! LruManager). Oracle: every operation RETURNS (the round runs under a deadline; sig
+//! `dyn-conc-hang-<operations in flight>`), reads return NotFound or exactly the written bytes,
+//! nothing fails, per payload the answers and the final state are linearizable w.r.t. the
+//! measured real-time order, counts settle, a re-opened container agrees; sigs `dyn-conc-*`.
+//!
+//! No part of the run can hang silently: see "hangs" below (controller watchdog, round
+//! deadline, stall watchdog; each ends in an oracle failure with a replay and exit code 0).
 #[cfg(not(feature = "hooks"))]
 fn main() {
     eprintln!("c11 needs --features hooks (cascette-cache/verif-hooks)");
@@ -52,7 +60,7 @@ mod real {
     use std::cell::RefCell;
     use std::collections::BTreeMap;
     use std::panic::AssertUnwindSafe;
-    use std::sync::atomic::{AtomicBool, AtomicU32, Ordering};
+    use std::sync::atomic::{AtomicBool, AtomicU32, AtomicU64, Ordering};
     use std::sync::{Arc, Mutex};
     use std::time::{Duration, Instant, SystemTime};
     use verif_harness::*;
@@ -355,6 +363,7 @@ mod real {
         b: u64,
         contents: BTreeMap<usize, Slot>,
         timeout: bool,
+        stuck: Option<(usize, usize, char)>,
     }
 
     impl Outcome {
@@ -402,16 +411,20 @@ mod real {
         steps: Vec<StepRec>,
         alive: Vec<Vec<usize>>,
         timeout: bool,
+        /// on timeout: (thread released last, index of the operation it was in, site it left);
+        /// None = the workers did not even reach their first park
+        stuck: Option<(usize, usize, char)>,
     }
 
     /// Step `nt` parked workers until all have finished. `choose(step, alive)` names the next
     /// thread (it may name a finished one: skipped) or asks for the drain (lowest live first).
     pub fn drive(ctl: &Ctl, nt: usize, choose: &mut dyn FnMut(usize, &[usize]) -> Choice) -> Drive {
-        let mut out = Drive { sched: String::new(), trace: String::new(), drain: String::new(), steps: vec![], alive: vec![], timeout: false };
+        let mut out = Drive { sched: String::new(), trace: String::new(), drain: String::new(), steps: vec![], alive: vec![], timeout: false, stuck: None };
         let mut opidx = vec![0usize; nt];
         let mut draining = false;
         let mut step_no = 0usize;
         loop {
+            beat();
             let Some(st) = ctl.settle() else {
                 out.timeout = true;
                 break;
@@ -447,6 +460,7 @@ mod real {
             ctl.release(tid);
             let Some(st2) = ctl.settle() else {
                 out.timeout = true;
+                out.stuck = Some((tid, opidx[tid], before));
                 break;
             };
             let after = match st2[tid] {
@@ -477,6 +491,7 @@ mod real {
         cfg.max_memory_bytes = None;
         let cache: Arc<MemoryCache<RibbitKey>> = Arc::new(MemoryCache::new(cfg).expect("config"));
         let rt = tokio::runtime::Builder::new_current_thread().build().expect("rt");
+        inflight("mem", case.line(""), "pre-operations");
         let mut pre = vec![];
         for op in &case.pre {
             advance_clocks();
@@ -501,7 +516,9 @@ mod real {
                 ctl.finish(tid);
             }));
         }
+        phase("schedule");
         let d = drive(&ctl, nt, choose);
+        inflight("mem", case.line(&d.sched), "workers-done");
         let mut out = Outcome {
             pre,
             results: vec![],
@@ -514,6 +531,7 @@ mod real {
             b: 0,
             contents: BTreeMap::new(),
             timeout: d.timeout,
+            stuck: d.stuck,
         };
         if out.timeout {
             // stuck workers cannot be joined; leave them parked
@@ -523,6 +541,7 @@ mod real {
             let _ = h.join();
         }
         out.results = results.lock().unwrap_or_else(|e| e.into_inner()).clone();
+        phase("quiescent-probes");
         // quiescence: read the books first, then probe the contents key by key
         let size = |c: &MemoryCache<RibbitKey>| rt.block_on(c.size()).unwrap_or(usize::MAX) as u64;
         let bytes = |c: &MemoryCache<RibbitKey>| c.cache_stats().memory_usage_bytes as u64;
@@ -663,6 +682,16 @@ mod real {
         }
     }
 
+    fn stuck_msg(progs: &[Vec<Op>], stuck: Option<(usize, usize, char)>) -> String {
+        match stuck {
+            Some((tid, op, site)) => format!(
+                "thread {tid}, released from schedule point `{site}` inside its operation {op} ({}), neither reached the next schedule point nor finished within the watchdog time: it waits for something a parked thread holds (or for itself)",
+                progs.get(tid).and_then(|p| p.get(op)).map(Op::tok).unwrap_or_else(|| "?".into())
+            ),
+            None => "the workers did not reach their first schedule point within the watchdog time".into(),
+        }
+    }
+
     fn intervals(case: &Case, out: &Outcome) -> Vec<Vec<(usize, usize)>> {
         let mut iv: Vec<Vec<(usize, usize)>> = case.progs.iter().map(|p| vec![(usize::MAX, 0); p.len()]).collect();
         for (i, s) in out.steps.iter().enumerate() {
@@ -731,7 +760,7 @@ mod real {
     fn oracle(case: &Case, out: &Outcome) -> Verdict {
         let mut fails = vec![];
         if out.timeout {
-            return Verdict { window_hits: 0, fails: vec![("mem-schedule-stuck".into(), "a worker neither parked nor finished within the watchdog time".into())] };
+            return Verdict { window_hits: 0, fails: vec![("mem-schedule-stuck".into(), stuck_msg(&case.progs, out.stuck))] };
         }
         let iv = intervals(case, out);
         let hits = expired_window_hits(case, out);
@@ -799,9 +828,151 @@ mod real {
 
     // ------------------------------------------------------------------ running cases
 
+    // ------------------------------------------------------------------ hangs: session behind a lock, stall watchdog, bail-out
+    //
+    // Three layers, so that an operation that never returns is reported within seconds as an
+    // oracle failure naming the input, never as a harness that has to be killed from outside:
+    //  * scheduled part of a MemoryCache / DiskCache case: `Ctl::settle` (10 s) -> `timeout`
+    //    response + sig `mem-/disk-schedule-stuck`; after STUCK_LIMIT such schedules the run is
+    //    closed early (every further one would cost another 10 s);
+    //  * DynamicContainer stress round: the whole round (set-up, workers, quiescent probes,
+    //    re-open) runs on its own threads, the main thread waits DYN_DEADLINE for the result ->
+    //    sig `dyn-conc-hang-<operations in flight>`, then the run is closed early;
+    //  * everything the main thread does itself (pre operations, quiescent probes): the stall
+    //    watchdog below sees no progress for STALL -> sig `<section>-hang-<phase>`, closes the
+    //    streams on behalf of the stuck main thread and ends the process.
+    // "Closed early" = the oracle failure is recorded, req/impl/oracle/stats are flushed, stuck
+    // threads are abandoned and the process exits 0, so ./check reads the failure and its replay.
+
+    /// bumped whenever the run makes progress (a line, a tally, a phase change)
+    static HEART: AtomicU64 = AtomicU64::new(0);
+    /// what the main thread is doing right now: (section, replayable request line, phase)
+    static INFLIGHT: Mutex<(&'static str, String, &'static str)> = Mutex::new(("harness", String::new(), "start"));
+    const STALL: Duration = Duration::from_secs(30);
+    const STUCK_LIMIT: u32 = 2;
+    const DYN_DEADLINE: Duration = Duration::from_secs(8);
+    /// a replayed `dstress` line: thread timing is free, so repeat the round this many times
+    const REPLAY_REPS: usize = 40;
+
+    fn beat() {
+        HEART.fetch_add(1, Ordering::Relaxed);
+    }
+    fn inflight(section: &'static str, line: String, phase: &'static str) {
+        *INFLIGHT.lock().unwrap_or_else(|e| e.into_inner()) = (section, line, phase);
+        beat();
+    }
+    fn phase(phase: &'static str) {
+        INFLIGHT.lock().unwrap_or_else(|e| e.into_inner()).2 = phase;
+        beat();
+    }
+
+    /// The `Session` behind a lock: the stall watchdog must be able to record a hang and close
+    /// the streams while the main thread is stuck inside a call into the code under test.
+    #[derive(Clone)]
+    struct Sess(Arc<Mutex<Option<Session>>>);
+
+    impl Sess {
+        fn new(out: &std::path::Path) -> Sess {
+            Sess(Arc::new(Mutex::new(Some(Session::new(out)))))
+        }
+        fn with<T>(&self, f: impl FnOnce(&mut Session) -> T) -> T {
+            beat();
+            let mut g = self.0.lock().unwrap_or_else(|e| e.into_inner());
+            match g.as_mut() {
+                Some(s) => f(s),
+                None => {
+                    // closed by the watchdog: the process is about to exit
+                    drop(g);
+                    loop {
+                        std::thread::sleep(LONG);
+                    }
+                }
+            }
+        }
+        fn line(&self, req: &str, resp: &str) {
+            self.with(|s| s.line(req, resp));
+        }
+        fn case(&self, key: Option<&str>) {
+            self.with(|s| s.case(key));
+        }
+        fn tally(&self, key: &str) {
+            self.with(|s| s.tally(key));
+        }
+        fn tally_n(&self, key: &str, n: u64) {
+            self.with(|s| s.tally_n(key, n));
+        }
+        fn oracle_fail(&self, sig: &str, msg: &str, replay: &[String]) {
+            self.with(|s| s.oracle_fail(sig, msg, replay));
+        }
+        fn set_rule(&self, rule: &str) {
+            self.with(|s| s.rule = rule.to_string());
+        }
+        fn extra(&self, key: &str, v: serde_json::Value) {
+            self.with(|s| {
+                s.extra.insert(key.to_string(), v);
+            });
+        }
+        /// flush and close the streams; false when somebody else already has
+        fn finish(&self) -> bool {
+            let taken = self.0.lock().unwrap_or_else(|e| e.into_inner()).take();
+            match taken {
+                Some(s) => {
+                    s.finish();
+                    true
+                }
+                None => false,
+            }
+        }
+        /// record why, close the streams, abandon whatever threads are stuck, end the process
+        fn close_early(&self, why: &str) -> ! {
+            self.tally(why);
+            self.finish();
+            std::process::exit(0);
+        }
+    }
+
+    fn spawn_stall_watchdog(s: Sess) {
+        std::thread::spawn(move || {
+            let (mut last, mut since) = (HEART.load(Ordering::Relaxed), Instant::now());
+            loop {
+                std::thread::sleep(Duration::from_millis(200));
+                let h = HEART.load(Ordering::Relaxed);
+                if h != last {
+                    (last, since) = (h, Instant::now());
+                    continue;
+                }
+                if since.elapsed() < STALL {
+                    continue;
+                }
+                let (section, line, ph) = INFLIGHT.lock().unwrap_or_else(|e| e.into_inner()).clone();
+                let sig = format!("{section}-hang-{ph}");
+                let msg = format!(
+                    "no progress for {} s: the main thread is stuck in phase `{ph}` of this case; that phase runs operations one at a time on the main thread (no worker is parked by the controller), so an operation run alone never returned",
+                    STALL.as_secs()
+                );
+                s.oracle_fail(&sig, &msg, &if line.is_empty() { vec![] } else { vec![line] });
+                s.close_early("closed-early:stalled-outside-a-schedule");
+            }
+        });
+    }
+
     struct Runner {
-        s: Session,
+        s: Sess,
         known_printed: BTreeMap<String, u64>,
+        /// schedules on which the controller's watchdog expired
+        stuck: u32,
+    }
+
+    impl Runner {
+        /// a worker neither parked nor finished within the controller's watchdog time: the case
+        /// is reported by the oracle (`*-schedule-stuck`); every further stuck schedule costs
+        /// the full watchdog time again, so close the run after STUCK_LIMIT of them
+        fn note_stuck(&mut self) {
+            self.stuck += 1;
+            if self.stuck >= STUCK_LIMIT {
+                self.s.close_early("closed-early:stuck-schedules");
+            }
+        }
     }
 
     impl Runner {
@@ -831,6 +1002,9 @@ mod real {
             for (sig, msg) in v.fails {
                 *self.known_printed.entry(sig.clone()).or_insert(0) += 1;
                 self.s.oracle_fail(&sig, &msg, &[line.clone()]);
+            }
+            if out.timeout {
+                self.note_stuck();
             }
         }
     }
@@ -1054,6 +1228,7 @@ mod real {
         let cfg = DiskCacheConfig::new(dir.path()).with_max_files(1000).with_subdirectories(false, 0);
         let cache: Arc<DiskCache<RibbitKey>> = Arc::new(DiskCache::new(cfg).expect("config"));
         let rt = tokio::runtime::Builder::new_current_thread().build().expect("rt");
+        inflight("disk", case.line(""), "pre-operations");
         let mut pre = vec![];
         for op in &case.pre {
             advance_clocks();
@@ -1078,7 +1253,9 @@ mod real {
                 ctl.finish(tid);
             }));
         }
+        phase("schedule");
         let d = drive(&ctl, nt, choose);
+        inflight("disk", case.line(&d.sched), "workers-done");
         let mut out = DOutcome { pre, results: vec![], d, n: 0, b: 0, c: String::new(), fs: vec![], g: vec![], slots: vec![], n2: 0, b2: 0 };
         if out.d.timeout {
             std::mem::forget(dir);
@@ -1088,6 +1265,7 @@ mod real {
             let _ = h.join();
         }
         out.results = results.lock().unwrap_or_else(|e| e.into_inner()).clone();
+        phase("quiescent-probes");
         advance_clocks();
         let books = |c: &DiskCache<RibbitKey>| {
             let st = c.cache_stats();
@@ -1148,7 +1326,7 @@ mod real {
     fn doracle(case: &DCase, out: &DOutcome) -> Vec<(String, String)> {
         let mut fails: Vec<(String, String)> = vec![];
         if out.d.timeout {
-            return vec![("disk-schedule-stuck".into(), "a worker neither parked nor finished within the watchdog time".into())];
+            return vec![("disk-schedule-stuck".into(), stuck_msg(&case.progs, out.d.stuck))];
         }
         let mut iv: Vec<Vec<(usize, usize)>> = case.progs.iter().map(|p| vec![(usize::MAX, 0); p.len()]).collect();
         for (i, s) in out.d.steps.iter().enumerate() {
@@ -1282,7 +1460,7 @@ mod real {
                     _ => {}
                 }
             }
-            let mout = Outcome { pre: out.pre.clone(), results: out.results.clone(), sched: String::new(), trace: String::new(), drain: String::new(), steps: vec![], alive: vec![], n: 0, b: 0, contents, timeout: false };
+            let mout = Outcome { pre: out.pre.clone(), results: out.results.clone(), sched: String::new(), trace: String::new(), drain: String::new(), steps: vec![], alive: vec![], n: 0, b: 0, contents, timeout: false, stuck: None };
             let mut r0: BTreeMap<usize, RefSlot> = BTreeMap::new();
             let pre_lin = Lin { case: &mcase, out: &mout, iv: vec![], drops: false, disk: true };
             for (op, res) in case.pre.iter().zip(out.pre.iter()) {
@@ -1331,6 +1509,9 @@ mod real {
             for (sig, msg) in fails {
                 *self.known_printed.entry(sig.clone()).or_insert(0) += 1;
                 self.s.oracle_fail(&sig, &msg, &[line.to_string()]);
+            }
+            if out.d.timeout {
+                self.note_stuck();
             }
         }
     }
@@ -1405,22 +1586,85 @@ mod real {
 
     // ------------------------------------------------------------------ DynamicContainer: free-running stress (oracle only)
 
-    /// One round: a fresh DynamicContainer, `nt` OS threads released together by a barrier, each
-    /// running its own list of write / read / remove / query over a shared pool of payloads, no
-    /// schedule control (the container has no hooks). The container is content-addressed (index
-    /// key = MD5 of the BLTE image of the data), so "a value some put wrote for that key" means:
-    /// a read returns NotFound or exactly the pool payload with that key. Oracle only.
-    fn dyn_round(r: &mut Runner, round_seed: u64, round: u64) {
-        let rng = &mut Rng::new(round_seed);
-        use cascette_client_storage::StorageError;
-        use cascette_client_storage::container::{AccessMode, Container, DynamicContainer};
-        #[derive(Clone, Copy, Debug)]
-        enum D {
-            W(usize),
-            R(usize),
-            X(usize),
-            Q(usize),
+    #[derive(Clone, Copy, Debug, PartialEq)]
+    enum D {
+        W(usize),
+        R(usize),
+        X(usize),
+        Q(usize),
+    }
+
+    impl D {
+        fn kind(self) -> &'static str {
+            match self {
+                D::W(_) => "write",
+                D::R(_) => "read",
+                D::X(_) => "remove",
+                D::Q(_) => "query",
+            }
         }
+        fn key(self) -> usize {
+            match self {
+                D::W(p) | D::R(p) | D::X(p) | D::Q(p) => p,
+            }
+        }
+    }
+
+    /// what an operation of a stress round observed
+    #[derive(Clone, Copy, Debug, PartialEq)]
+    enum Obs {
+        /// write / remove returned Ok
+        Done,
+        /// read returned exactly the payload / query returned true
+        Present,
+        /// read returned NotFound / query returned false
+        Absent,
+        /// anything else (reported separately)
+        Failed,
+    }
+
+    /// one executed operation: (operation, start, end, observation); times in ns since the
+    /// workers' common start, taken just outside the call, so the measured interval contains
+    /// the real one and "a ended before b started" is never claimed wrongly
+    type DRec = (D, u128, u128, Obs);
+
+    /// round number mod 8 -> shape of the round. The pairs the property quantifies over are
+    /// each the theme of a mode, so every quick run has ~100 rounds built around each of them.
+    const DYN_MODES: [&str; 8] = [
+        // 0: write 4 / read 3 / remove 2 / query 1 on every thread, empty container
+        "mixed",
+        // 1: the same over a container in which a random half of the pool is already indexed
+        "mixed-pre",
+        // 2: payloads 0,1 indexed before the round and only read / queried by 1-2 reader threads
+        //    (longer programs); the other threads only write the OTHER (larger) payloads
+        "read-indexed||write-other",
+        // 3, 7: writers only, same and different payloads (every write re-saves the index files)
+        "write||write",
+        // 4: every thread writes and removes (1:1) over the whole pool, half of it indexed before
+        "write||remove",
+        // 5: whole pool indexed before; reader threads (read 4 / query 1) against remover
+        //    threads (remove 2 / write 1)
+        "read||remove",
+        // 6: as 2, the non-readers also remove (1 in 3) what they and the others wrote
+        "read-indexed||write+remove-other",
+        "write||write",
+    ];
+
+    /// everything one round does, a function of (round_seed, round) alone
+    struct DynPlan {
+        mode: usize,
+        pool: Vec<Vec<u8>>,
+        keys: Vec<[u8; 16]>,
+        /// payloads written one after the other before the workers start
+        pre: Vec<usize>,
+        progs: Vec<Vec<D>>,
+        /// container built with an LruManager (read and write then also take its lock)
+        lru: bool,
+    }
+
+    fn dyn_plan(round_seed: u64, round: u64) -> DynPlan {
+        let rng = &mut Rng::new(round_seed);
+        let mode = (round % 8) as usize;
         let ekey = |data: &[u8]| {
             let mut v = Vec::with_capacity(9 + data.len());
             v.extend_from_slice(b"BLTE\0\0\0\0N");
@@ -1428,9 +1672,12 @@ mod real {
             md5::compute(&v).0
         };
         let np = 5usize;
+        let split = matches!(mode, 2 | 6);
         let pool: Vec<Vec<u8>> = (0..np)
             .map(|i| {
-                let n = *rng.pick(&[0usize, 1, 17, 300, 2000, 9000]);
+                // the payloads written while readers run are the larger ones: BLTE encoding, MD5
+                // and the file write of a write happen under the archive lock
+                let n = if split && i >= 2 { *rng.pick(&[300usize, 2000, 9000, 40000]) } else { *rng.pick(&[0usize, 1, 17, 300, 2000, 9000]) };
                 let mut v = vec![i as u8; 1];
                 v.extend((0..n).map(|_| rng.byte()));
                 v
@@ -1438,39 +1685,201 @@ mod real {
             .collect();
         let keys: Vec<[u8; 16]> = pool.iter().map(|p| ekey(p)).collect();
         let nt = rng.range(2, 4) as usize;
+        let mixed = |rng: &mut Rng| {
+            let p = rng.below(np as u64) as usize;
+            match rng.below(10) {
+                0..=3 => D::W(p),
+                4..=6 => D::R(p),
+                7..=8 => D::X(p),
+                _ => D::Q(p),
+            }
+        };
+        let prog = |rng: &mut Rng, lo: u64, hi: u64, f: &dyn Fn(&mut Rng) -> D| -> Vec<D> { (0..rng.range(lo, hi)).map(|_| f(rng)).collect() };
+        let readers = if nt == 2 { 1 } else { rng.range(1, nt as u64 - 1) as usize };
         let progs: Vec<Vec<D>> = (0..nt)
-            .map(|_| {
-                (0..rng.range(4, 14))
-                    .map(|_| {
-                        let p = rng.below(np as u64) as usize;
-                        // every 4th round: writers only (every write re-saves the index files)
-                        match if round % 4 == 3 { 0 } else { rng.below(10) } {
-                            0..=3 => D::W(p),
-                            4..=6 => D::R(p),
-                            7..=8 => D::X(p),
-                            _ => D::Q(p),
-                        }
-                    })
-                    .collect()
+            .map(|tid| match mode {
+                0 | 1 => prog(rng, 4, 14, &mixed),
+                3 | 7 => prog(rng, 4, 14, &|rng| D::W(rng.below(np as u64) as usize)),
+                2 | 6 => {
+                    if tid < readers {
+                        prog(rng, 8, 24, &|rng| {
+                            let p = rng.below(2) as usize;
+                            if rng.chance(1, 6) { D::Q(p) } else { D::R(p) }
+                        })
+                    } else {
+                        prog(rng, 4, 12, &|rng| {
+                            let p = rng.range(2, np as u64 - 1) as usize;
+                            if mode == 6 && rng.chance(1, 3) { D::X(p) } else { D::W(p) }
+                        })
+                    }
+                }
+                4 => prog(rng, 4, 14, &|rng| {
+                    let p = rng.below(np as u64) as usize;
+                    if rng.chance(1, 2) { D::W(p) } else { D::X(p) }
+                }),
+                _ => {
+                    if tid < readers {
+                        prog(rng, 6, 16, &|rng| {
+                            let p = rng.below(np as u64) as usize;
+                            if rng.chance(1, 5) { D::Q(p) } else { D::R(p) }
+                        })
+                    } else {
+                        prog(rng, 4, 12, &|rng| {
+                            let p = rng.below(np as u64) as usize;
+                            if rng.chance(1, 3) { D::W(p) } else { D::X(p) }
+                        })
+                    }
+                }
             })
             .collect();
-        let line = format!("dstress seed={round_seed} round={round} threads={nt} ops={}", progs.iter().map(Vec::len).sum::<usize>());
-        r.s.line(&line, "oracle-only");
-        r.s.case(Some(line.as_str()));
-        r.s.tally("dyn:stress-rounds");
-        let dir = scratch_dir();
-        let c = match DynamicContainer::builder(dir.path().join("data")).access_mode(AccessMode::ReadWrite).segment_limit(100).max_segment_size(1 << 30).build() {
+        let pre: Vec<usize> = (0..np)
+            .filter(|p| match mode {
+                0 | 3 => false,
+                1 | 4 | 7 => rng.chance(1, 2),
+                2 | 6 => *p < 2 || rng.chance(1, 3),
+                _ => true,
+            })
+            .collect();
+        let lru = rng.chance(1, 2);
+        DynPlan { mode, pool, keys, pre, progs, lru }
+    }
+
+    impl DynPlan {
+        fn line(&self, round_seed: u64, round: u64) -> String {
+            // only seed= and round= are read back by a replay; the rest describes the round
+            format!(
+                "dstress seed={round_seed} round={round} mode={} threads={} ops={} pre={} lru={}",
+                DYN_MODES[self.mode],
+                self.progs.len(),
+                self.progs.iter().map(Vec::len).sum::<usize>(),
+                if self.pre.is_empty() { "-".to_string() } else { self.pre.iter().map(|p| p.to_string()).collect::<Vec<_>>().join(",") },
+                if self.lru { "on" } else { "off" }
+            )
+        }
+        fn describe(&self, op: D) -> String {
+            let p = op.key();
+            format!("{} of payload {p} ({} bytes{})", op.kind(), self.pool[p].len(), if self.pre.contains(&p) { ", indexed before the round" } else { "" })
+        }
+    }
+
+    /// progress of a round, shared with the main thread so that it can say what was in flight
+    /// when the deadline passed
+    struct DynShared {
+        /// 0 set-up, 1 pre-writes, 2 workers, 3 quiescent probes, 4 re-open
+        phase: AtomicU32,
+        /// per worker: i + 1 once it has entered operation i
+        entered: Vec<AtomicU64>,
+        /// per worker: i + 1 once operation i has returned
+        left: Vec<AtomicU64>,
+    }
+
+    const DYN_PHASES: [&str; 5] = ["setup", "pre-writes", "workers", "quiescent-probes", "reopen"];
+
+    struct DynResult {
+        fails: Vec<(String, String)>,
+        tallies: Vec<String>,
+    }
+
+    /// Is there a sequential order of the operations on ONE payload, consistent with the measured
+    /// real-time order, in which every read / query saw the state (indexed or not) left by the
+    /// operations before it, starting from `init` and ending in the state found at quiescence?
+    /// (Linearizability is compositional, so the keys are checked one by one; the container is
+    /// content-addressed, so per key it is a presence register: write sets, remove clears.)
+    fn dyn_key_linearizable(init: bool, ops: &[DRec], fin: bool) -> bool {
+        fn go(done: u64, st: bool, ops: &[DRec], fin: bool, memo: &mut std::collections::HashSet<(u64, bool)>) -> bool {
+            if done == (1u64 << ops.len()) - 1 {
+                return st == fin;
+            }
+            if !memo.insert((done, st)) {
+                return false;
+            }
+            let min_end = ops.iter().enumerate().filter(|(i, _)| done >> i & 1 == 0).map(|(_, o)| o.2).min().unwrap_or(0);
+            for (i, o) in ops.iter().enumerate() {
+                // next in the order: not yet placed, and no unplaced operation ended before it began
+                if done >> i & 1 == 1 || o.1 > min_end {
+                    continue;
+                }
+                let nst = match o.0 {
+                    D::W(_) => true,
+                    D::X(_) => false,
+                    D::R(_) | D::Q(_) => {
+                        if (o.3 == Obs::Present) != st {
+                            continue;
+                        }
+                        st
+                    }
+                };
+                if go(done | 1 << i, nst, ops, fin, memo) {
+                    return true;
+                }
+            }
+            false
+        }
+        go(0, init, ops, fin, &mut std::collections::HashSet::new())
+    }
+
+    /// The per-key search must reject what it is there to reject (a test of the oracle itself,
+    /// run at every start): a read that misses a value written before it began, a removed value
+    /// that is still served, a final state nobody left; and accept the overlapping variants.
+    fn dyn_lin_selftest() -> Result<(), String> {
+        use Obs::*;
+        let cases: [(&str, bool, Vec<DRec>, bool, bool); 8] = [
+            ("read after write sees it", false, vec![(D::W(0), 0, 10, Done), (D::R(0), 20, 30, Present)], true, true),
+            ("read after write misses it", false, vec![(D::W(0), 0, 10, Done), (D::R(0), 20, 30, Absent)], true, false),
+            ("read overlapping write may miss it", false, vec![(D::W(0), 0, 25, Done), (D::R(0), 20, 30, Absent)], true, true),
+            ("removed value still served", true, vec![(D::X(0), 0, 10, Done), (D::Q(0), 20, 30, Present)], false, false),
+            ("remove then write, absent at the end", true, vec![(D::X(0), 0, 10, Done), (D::W(0), 20, 30, Done)], false, false),
+            ("remove || write, either end state", true, vec![(D::X(0), 0, 25, Done), (D::W(0), 20, 30, Done)], false, true),
+            ("indexed key never touched reads NotFound", true, vec![(D::R(0), 0, 10, Absent)], true, false),
+            ("two reads in real-time order see present then absent then present without a second write", false, vec![(D::W(0), 0, 5, Done), (D::X(0), 0, 40, Done), (D::R(0), 10, 15, Absent), (D::R(0), 20, 25, Present)], true, false),
+        ];
+        for (name, init, ops, fin, want) in cases {
+            if dyn_key_linearizable(init, &ops, fin) != want {
+                return Err(format!("`{name}`: expected {want}"));
+            }
+        }
+        Ok(())
+    }
+
+    /// One stress round on a fresh DynamicContainer in `path` (runs on its own thread, see
+    /// `dyn_round`): the pre-writes one after the other, then `nt` OS threads released together
+    /// by a barrier, each running its own list of write / read / remove / query over the shared
+    /// pool of payloads, no schedule control (the container has no hooks). The container is
+    /// content-addressed (index key = MD5 of the BLTE image of the data), so "a value some put
+    /// wrote for that key" means: a read returns NotFound or exactly the pool payload with that
+    /// key. Oracle only.
+    fn dyn_body(plan: &Arc<DynPlan>, path: &std::path::Path, sh: &Arc<DynShared>) -> DynResult {
+        use cascette_client_storage::StorageError;
+        use cascette_client_storage::container::{AccessMode, Container, DynamicContainer};
+        use cascette_client_storage::lru::LruManager;
+        let (np, nt) = (plan.pool.len(), plan.progs.len());
+        let (pool, keys, progs) = (&plan.pool, &plan.keys, &plan.progs);
+        let mut fails: Vec<(String, String)> = vec![];
+        let mut tallies: Vec<String> = vec![];
+        let build = || {
+            let b = DynamicContainer::builder(path.join("data")).access_mode(AccessMode::ReadWrite).segment_limit(100).max_segment_size(1 << 30);
+            if plan.lru { b.lru(Arc::new(parking_lot::RwLock::new(LruManager::new(64, path.join("data"))))) } else { b }.build()
+        };
+        let c = match build() {
             Ok(c) => Arc::new(c),
             Err(e) => {
-                r.s.oracle_fail("dyn-conc-setup", &format!("build: {e}"), &[line.clone()]);
-                return;
+                fails.push(("dyn-conc-setup".into(), format!("build: {e}")));
+                return DynResult { fails, tallies };
             }
         };
         let rt = tokio::runtime::Builder::new_current_thread().build().expect("rt");
         if let Err(e) = rt.block_on(c.open()) {
-            r.s.oracle_fail("dyn-conc-setup", &format!("open: {e}"), &[line.clone()]);
-            return;
+            fails.push(("dyn-conc-setup".into(), format!("open: {e}")));
+            return DynResult { fails, tallies };
         }
+        sh.phase.store(1, Ordering::Release);
+        for p in &plan.pre {
+            if let Err(e) = rt.block_on(c.write(&keys[*p], &pool[*p])) {
+                fails.push(("dyn-conc-setup".into(), format!("sequential write of payload {p} before the round failed: {e}")));
+                return DynResult { fails, tallies };
+            }
+        }
+        sh.phase.store(2, Ordering::Release);
         let class = |e: &StorageError| match e {
             StorageError::NotFound(_) => "notfound",
             StorageError::TruncatedRead(_) => "truncated",
@@ -1479,68 +1888,125 @@ mod real {
             _ => "other",
         };
         let barrier = Arc::new(std::sync::Barrier::new(nt));
-        let fails: Arc<Mutex<Vec<(String, String)>>> = Arc::new(Mutex::new(vec![]));
+        let wfails: Arc<Mutex<Vec<(String, String)>>> = Arc::new(Mutex::new(vec![]));
+        let t0 = Instant::now();
         let mut handles = vec![];
-        for (tid, prog) in progs.iter().cloned().enumerate() {
-            let (c, barrier, fails, pool, keys) = (c.clone(), barrier.clone(), fails.clone(), pool.clone(), keys.clone());
+        for tid in 0..nt {
+            let (c, barrier, wfails, plan, sh) = (c.clone(), barrier.clone(), wfails.clone(), plan.clone(), sh.clone());
             handles.push(std::thread::spawn(move || {
+                let (pool, keys, prog) = (&plan.pool, &plan.keys, &plan.progs[tid]);
                 let rt = tokio::runtime::Builder::new_current_thread().build().expect("rt");
-                let fail = |sig: &str, msg: String| fails.lock().unwrap_or_else(|e| e.into_inner()).push((sig.to_string(), msg));
+                let fail = |sig: &str, msg: String| wfails.lock().unwrap_or_else(|e| e.into_inner()).push((sig.to_string(), msg));
+                let mut recs: Vec<DRec> = Vec::with_capacity(prog.len());
                 barrier.wait();
                 for (i, op) in prog.iter().enumerate() {
+                    sh.entered[tid].store(i as u64 + 1, Ordering::Release);
+                    let start = t0.elapsed().as_nanos();
                     let res = catch(AssertUnwindSafe(|| match *op {
-                        D::W(p) => {
-                            if let Err(e) = rt.block_on(c.write(&keys[p], &pool[p])) {
+                        D::W(p) => match rt.block_on(c.write(&keys[p], &pool[p])) {
+                            Ok(()) => Obs::Done,
+                            Err(e) => {
                                 let save = e.to_string().contains("Failed to save index");
                                 fail(&if save { "dyn-conc-save-index-fails".to_string() } else { format!("dyn-conc-write-{}", class(&e)) }, format!("thread {tid} op {i}: write of payload {p} ({} bytes) failed: {e}", pool[p].len()));
+                                Obs::Failed
                             }
-                        }
+                        },
                         D::R(p) => {
                             let mut buf = vec![0u8; pool[p].len() + 64];
                             match rt.block_on(c.read(&keys[p], 0, 0, &mut buf)) {
                                 Ok(n) => {
                                     if buf[..n] != pool[p][..] {
                                         fail("dyn-conc-read-wrong-bytes", format!("thread {tid} op {i}: read of payload {p} returned {n} bytes that are not the {} bytes written", pool[p].len()));
+                                        Obs::Failed
+                                    } else {
+                                        Obs::Present
                                     }
                                 }
-                                Err(StorageError::NotFound(_)) => {}
-                                Err(e) => fail(&format!("dyn-conc-read-{}", class(&e)), format!("thread {tid} op {i}: read of payload {p} failed: {e}")),
+                                Err(StorageError::NotFound(_)) => Obs::Absent,
+                                Err(e) => {
+                                    fail(&format!("dyn-conc-read-{}", class(&e)), format!("thread {tid} op {i}: read of payload {p} failed: {e}"));
+                                    Obs::Failed
+                                }
                             }
                         }
-                        D::X(p) => {
-                            if let Err(e) = rt.block_on(c.remove(&keys[p])) {
+                        D::X(p) => match rt.block_on(c.remove(&keys[p])) {
+                            Ok(()) => Obs::Done,
+                            Err(e) => {
                                 let save = e.to_string().contains("Failed to save index");
                                 fail(&if save { "dyn-conc-save-index-fails".to_string() } else { format!("dyn-conc-remove-{}", class(&e)) }, format!("thread {tid} op {i}: remove of payload {p} failed: {e}"));
+                                Obs::Failed
                             }
-                        }
-                        D::Q(p) => {
-                            if let Err(e) = rt.block_on(c.query(&keys[p])) {
+                        },
+                        D::Q(p) => match rt.block_on(c.query(&keys[p])) {
+                            Ok(true) => Obs::Present,
+                            Ok(false) => Obs::Absent,
+                            Err(e) => {
                                 fail(&format!("dyn-conc-query-{}", class(&e)), format!("thread {tid} op {i}: query failed: {e}"));
+                                Obs::Failed
                             }
-                        }
+                        },
                     }));
-                    if res.is_err() {
+                    let end = t0.elapsed().as_nanos();
+                    sh.left[tid].store(i as u64 + 1, Ordering::Release);
+                    let obs = res.unwrap_or_else(|_| {
                         fail("dyn-conc-panic", format!("thread {tid} op {i} ({op:?}) panicked"));
-                    }
+                        Obs::Failed
+                    });
+                    recs.push((*op, start, end, obs));
                 }
+                recs
             }));
         }
-        for h in handles {
-            let _ = h.join();
+        // a worker that never returns keeps this join waiting: the main thread's deadline sees it
+        let recs: Vec<Vec<DRec>> = handles.into_iter().map(|h| h.join().unwrap_or_default()).collect();
+        sh.phase.store(3, Ordering::Release);
+        fails.extend(wfails.lock().unwrap_or_else(|e| e.into_inner()).drain(..));
+        // which of the pairs this property is about really overlapped in time in this round
+        let mut seen: std::collections::BTreeSet<&'static str> = Default::default();
+        for (ta, ra) in recs.iter().enumerate() {
+            for rb in recs.iter().skip(ta + 1) {
+                for a in ra {
+                    for b in rb {
+                        if a.1 > b.2 || b.1 > a.2 {
+                            continue;
+                        }
+                        let same = a.0.key() == b.0.key();
+                        for (x, y) in [(a, b), (b, a)] {
+                            match (x.0, y.0) {
+                                (D::R(_), D::W(_)) if x.3 == Obs::Present && !same => seen.insert("dyn:rounds-where-overlapped:read-of-indexed-key||write-of-other-key"),
+                                (D::R(_), D::W(_)) if same => seen.insert("dyn:rounds-where-overlapped:read||write-same-key"),
+                                (D::R(_), D::X(_)) if same => seen.insert("dyn:rounds-where-overlapped:read||remove-same-key"),
+                                (D::R(_), D::X(_)) if x.3 == Obs::Present => seen.insert("dyn:rounds-where-overlapped:read-of-indexed-key||remove-of-other-key"),
+                                (D::W(_), D::X(_)) if same => seen.insert("dyn:rounds-where-overlapped:write||remove-same-key"),
+                                (D::W(_), D::X(_)) => seen.insert("dyn:rounds-where-overlapped:write||remove-other-key"),
+                                _ => false,
+                            };
+                        }
+                        match (a.0, b.0) {
+                            (D::W(_), D::W(_)) if same => seen.insert("dyn:rounds-where-overlapped:write||write-same-key"),
+                            (D::W(_), D::W(_)) => seen.insert("dyn:rounds-where-overlapped:write||write-other-key"),
+                            (D::X(_), D::X(_)) => seen.insert("dyn:rounds-where-overlapped:remove||remove"),
+                            _ => false,
+                        };
+                    }
+                }
+            }
         }
-        let mut fails = fails.lock().unwrap_or_else(|e| e.into_inner()).clone();
+        tallies.extend(seen.iter().map(|s| s.to_string()));
         // quiescence: counts settle, every key is absent or reads back exactly, nothing that was
         // written and never removed by anybody is lost, nothing never written is present
         let mut present = 0usize;
+        let mut fin: Vec<Option<bool>> = vec![None; np];
         for p in 0..np {
             let q = rt.block_on(c.query(&keys[p])).unwrap_or(false);
             let mut buf = vec![0u8; pool[p].len() + 64];
             let rd = rt.block_on(c.read(&keys[p], 0, 0, &mut buf));
-            let written = progs.iter().flatten().any(|o| matches!(o, D::W(x) if *x == p));
-            let removed = progs.iter().flatten().any(|o| matches!(o, D::X(x) if *x == p));
+            let written = plan.pre.contains(&p) || progs.iter().flatten().any(|o| *o == D::W(p));
+            let removed = progs.iter().flatten().any(|o| *o == D::X(p));
             match (&rd, q) {
                 (Ok(n), true) => {
                     present += 1;
+                    fin[p] = Some(true);
                     if buf[..*n] != pool[p][..] {
                         fails.push(("dyn-conc-read-wrong-bytes".into(), format!("at quiescence payload {p} reads back {n} bytes that are not the {} bytes written", pool[p].len())));
                     }
@@ -1549,6 +2015,7 @@ mod real {
                     }
                 }
                 (Err(StorageError::NotFound(_)), false) => {
+                    fin[p] = Some(false);
                     if written && !removed {
                         fails.push(("dyn-conc-lost-write".into(), format!("at quiescence payload {p} is absent although it was written and never removed")));
                     }
@@ -1567,11 +2034,40 @@ mod real {
         if c.entry_count() != present {
             fails.push(("dyn-conc-entry-count".into(), format!("at quiescence entry_count() = {} but {present} of the pool keys are present", c.entry_count())));
         }
-        // the index files were saved by several threads (save_all under the index READ lock):
-        // what a new process finds on disk must be the same contents
+        // every operation took effect at one instant: per payload, the answers of the reads and
+        // queries and the state found at quiescence are explained by some sequential order that
+        // respects the measured real-time order (payloads with a failed operation or an
+        // inconsistent final probe are reported above and skipped here)
+        for p in 0..np {
+            let ops: Vec<DRec> = recs.iter().flatten().filter(|r| r.0.key() == p).copied().collect();
+            let Some(f) = fin[p] else { continue };
+            if ops.iter().any(|o| o.3 == Obs::Failed) || ops.len() > 60 {
+                continue;
+            }
+            tallies.push("dyn:per-key-histories-checked-linearizable".into());
+            if !dyn_key_linearizable(plan.pre.contains(&p), &ops, f) {
+                let mut kinds: Vec<&str> = ops.iter().map(|o| o.0.kind()).collect();
+                kinds.sort_unstable();
+                kinds.dedup();
+                let mut hist: Vec<&DRec> = ops.iter().collect();
+                hist.sort_by_key(|o| o.1);
+                fails.push((
+                    format!("dyn-conc-not-linearizable-{}", kinds.join("+")),
+                    format!(
+                        "payload {p} (indexed before the round: {}; at quiescence: {}): no sequential order consistent with real-time order explains [{}] (op start..end in us, observation)",
+                        plan.pre.contains(&p),
+                        if f { "present" } else { "absent" },
+                        hist.iter().map(|o| format!("{} {}..{} {:?}", o.0.kind(), o.1 / 1000, o.2 / 1000, o.3)).collect::<Vec<_>>().join(", ")
+                    ),
+                ));
+            }
+        }
+        // the index files were saved by several threads: what a new process finds on disk must
+        // be the same contents
         let was_present: Vec<bool> = (0..np).map(|p| rt.block_on(c.query(&keys[p])).unwrap_or(false)).collect();
         drop(c);
-        match DynamicContainer::builder(dir.path().join("data")).access_mode(AccessMode::ReadWrite).segment_limit(100).max_segment_size(1 << 30).build() {
+        sh.phase.store(4, Ordering::Release);
+        match build() {
             Ok(c2) => {
                 if let Err(e) = rt.block_on(c2.open()) {
                     fails.push(("dyn-conc-reopen-fails".into(), format!("open after the run: {e}")));
@@ -1593,19 +2089,91 @@ mod real {
             }
             Err(e) => fails.push(("dyn-conc-reopen-fails".into(), format!("build after the run: {e}"))),
         }
-        for o in progs.iter().flatten() {
-            r.s.tally(match o {
-                D::W(_) => "dyn:op:write",
-                D::R(_) => "dyn:op:read",
-                D::X(_) => "dyn:op:remove",
-                D::Q(_) => "dyn:op:query",
-            });
+        DynResult { fails, tallies }
+    }
+
+    /// Run the round `reps` times (until one repetition fails) and report. Every part of a
+    /// repetition that calls into the container runs on other threads (`dyn_body` + its
+    /// workers); this thread only waits for the result, at most DYN_DEADLINE: a round on which
+    /// the operations never return is reported as `dyn-conc-hang-<operations in flight>` with
+    /// what every worker was doing, and the run is closed (the stuck threads are abandoned).
+    fn dyn_round(r: &mut Runner, round_seed: u64, round: u64, reps: usize) {
+        let plan = Arc::new(dyn_plan(round_seed, round));
+        let line = plan.line(round_seed, round);
+        r.s.line(&line, "oracle-only");
+        r.s.case(Some(line.as_str()));
+        r.s.tally("dyn:stress-rounds");
+        r.s.tally(&format!("dyn:mode:{}", DYN_MODES[plan.mode]));
+        if plan.lru {
+            r.s.tally("dyn:rounds-with-lru-manager");
         }
-        // one report per sig and round
-        fails.sort();
-        fails.dedup_by(|a, b| a.0 == b.0);
-        for (sig, msg) in fails {
-            r.s.oracle_fail(&sig, &format!("{msg}; programs {progs:?}"), &[line.clone()]);
+        for o in plan.progs.iter().flatten() {
+            r.s.tally(&format!("dyn:op:{}", o.kind()));
+        }
+        inflight("dyn", line.clone(), "stress-round");
+        let nt = plan.progs.len();
+        for rep in 0..reps {
+            let dir = scratch_dir();
+            let sh = Arc::new(DynShared { phase: AtomicU32::new(0), entered: (0..nt).map(|_| AtomicU64::new(0)).collect(), left: (0..nt).map(|_| AtomicU64::new(0)).collect() });
+            let (tx, rx) = std::sync::mpsc::channel();
+            {
+                let (plan, sh, path) = (plan.clone(), sh.clone(), dir.path().to_path_buf());
+                std::thread::spawn(move || {
+                    let res = catch(AssertUnwindSafe(|| dyn_body(&plan, &path, &sh)));
+                    let _ = tx.send(res);
+                });
+            }
+            let started = Instant::now();
+            let mut fails = match rx.recv_timeout(DYN_DEADLINE) {
+                Ok(Ok(res)) => {
+                    for t in &res.tallies {
+                        r.s.tally(t);
+                    }
+                    res.fails
+                }
+                Ok(Err(p)) => vec![("dyn-conc-panic".to_string(), format!("the round panicked outside an operation: {p}"))],
+                Err(_) => {
+                    // deadline passed: say what was in flight, then give up on this process
+                    let ph = DYN_PHASES[(sh.phase.load(Ordering::Acquire) as usize).min(4)];
+                    let mut kinds: Vec<&str> = vec![];
+                    let mut what: Vec<String> = vec![];
+                    for tid in 0..nt {
+                        let (e, l) = (sh.entered[tid].load(Ordering::Acquire) as usize, sh.left[tid].load(Ordering::Acquire) as usize);
+                        let prog = &plan.progs[tid];
+                        if e > l && e <= prog.len() {
+                            kinds.push(prog[e - 1].kind());
+                            what.push(format!("thread {tid} is still inside its op {} = {} ({} of its {} ops returned)", e - 1, plan.describe(prog[e - 1]), l, prog.len()));
+                        } else if l >= prog.len() {
+                            what.push(format!("thread {tid} finished its {} ops", prog.len()));
+                        } else {
+                            what.push(format!("thread {tid} is between its ops {l} and {}", l + 1));
+                        }
+                    }
+                    kinds.sort_unstable();
+                    kinds.dedup();
+                    let sig = if ph == "workers" && !kinds.is_empty() { format!("dyn-conc-hang-{}", kinds.join("+")) } else { format!("dyn-conc-hang-in-{ph}") };
+                    let msg = format!(
+                        "round not finished {:.1} s after its start (a round takes milliseconds), phase {ph}, repetition {rep}: {}; operations that do not return never take effect; programs {:?}",
+                        started.elapsed().as_secs_f64(),
+                        what.join("; "),
+                        plan.progs
+                    );
+                    r.s.oracle_fail(&sig, &msg, &[line.clone()]);
+                    drop(dir);
+                    r.s.close_early("closed-early:dyn-round-hung");
+                }
+            };
+            // one report per sig and round
+            fails.sort();
+            fails.dedup_by(|a, b| a.0 == b.0);
+            let failed = !fails.is_empty();
+            for (sig, msg) in fails {
+                r.s.oracle_fail(&sig, &format!("{msg}; programs {:?}", plan.progs), &[line.clone()]);
+            }
+            if failed {
+                break;
+            }
+            beat();
         }
     }
 
@@ -1667,8 +2235,12 @@ mod real {
         let args = Args::parse();
         quiet_panics();
         install_callback();
-        let mut r = Runner { s: Session::new(&args.out), known_printed: BTreeMap::new() };
-        r.s.rule = "one evaluation = one schedule replayed on the real MemoryCache or DiskCache by the controller, or one free-running DynamicContainer stress round (dstress); non-trivial = the schedule switches threads at least once inside an operation (between two of its shared-state accesses), every stress round counts; distinct = canonical request line (programs + executed schedule / round number)".into();
+        let mut r = Runner { s: Sess::new(&args.out), known_printed: BTreeMap::new(), stuck: 0 };
+        spawn_stall_watchdog(r.s.clone());
+        if let Err(e) = dyn_lin_selftest() {
+            r.s.oracle_fail("harness-selftest-dyn-linearizability-search", &e, &[]);
+        }
+        r.s.set_rule("one evaluation = one schedule replayed on the real MemoryCache or DiskCache by the controller, or one free-running DynamicContainer stress round (dstress); non-trivial = the schedule switches threads at least once inside an operation (between two of its shared-state accesses), every stress round counts; distinct = canonical request line (programs + executed schedule / round number)");
         if let Some(f) = &args.replay {
             for l in read_case(f) {
                 match Case::parse(&l) {
@@ -1682,7 +2254,8 @@ mod real {
                     None if l.starts_with("dstress ") => {
                         // same programs (from the round's seed), thread timing is free again
                         let field = |name: &str| l.split(' ').find_map(|t| t.strip_prefix(name)).and_then(|v| v.parse::<u64>().ok()).unwrap_or(0);
-                        dyn_round(&mut r, field("seed="), field("round="));
+                        // (so the round is repeated until a repetition fails, at most REPLAY_REPS times)
+                        dyn_round(&mut r, field("seed="), field("round="), REPLAY_REPS);
                     }
                     None => match DCase::parse(&l) {
                         Some((case, sched)) => {
@@ -1778,16 +2351,16 @@ mod real {
             drun_random(&mut r, &mut rng, &case);
         }
         r.s.tally_n("F:disk-random-cases", nf);
-        r.s.extra.insert("wall_ms_disk".into(), serde_json::json!(t1.elapsed().as_millis() as u64));
+        r.s.extra("wall_ms_disk", serde_json::json!(t1.elapsed().as_millis() as u64));
         // ---- DynamicContainer: concurrent write / read / remove, real threads, oracle only
         let t2 = Instant::now();
         let ng = if args.thorough() { 8_000 } else { 800 };
         for i in 0..ng {
             let rs = rng.next();
-            dyn_round(&mut r, rs, i);
+            dyn_round(&mut r, rs, i, 1);
         }
-        r.s.extra.insert("wall_ms_dyn".into(), serde_json::json!(t2.elapsed().as_millis() as u64));
-        r.s.extra.insert("wall_ms_generate".into(), serde_json::json!(t0.elapsed().as_millis() as u64));
+        r.s.extra("wall_ms_dyn", serde_json::json!(t2.elapsed().as_millis() as u64));
+        r.s.extra("wall_ms_generate", serde_json::json!(t0.elapsed().as_millis() as u64));
         r.s.finish();
     }
 }
